@@ -243,6 +243,8 @@ def check_regen(ctx, c):
                         key="regen:flags")
 
 
+RULE = RULE + " " + ("Since seeded round 4 the regenerate facet also edits volumes (grid: cell_vol; graph: one node's volume) through the public setters on a space that has already served, before the defaults are regenerated.")
+
 FACETS = [
     Facet("defaults", check_defaults, strategy=strat_defaults, examples=(2400, 40000), shards=(8, 16)),
     Facet("accessors", check_accessors, strategy=strat_accessors, examples=(800, 10000), shards=(8, 16)),
